@@ -4,6 +4,7 @@
 The statements are repeated, with their reading, in `Props/C08GenWrap.lean`.
 -/
 import Sdmmc.Lemmas.GenWrap
+import Sdmmc.Lemmas.GenMgr2
 
 namespace Sdmmc.Lemmas.GenWrapRaii
 
@@ -86,14 +87,21 @@ theorem delete_file_in_dir_eq (d : Nat) (name : List Nat) :
     FunsWrap.Directory_delete_file_in_dir d name = Wrap.Directory.deleteFileInDir d name :=
   delete_file_in_dir_call d name
 
-/-- The methods whose manager method is not machine-translated yet: the wrapper passes everything through. -/
+theorem find_directory_entry_eq (d : Nat) (name : List Nat) :
+    FunsWrap.Directory_find_directory_entry d name = Wrap.Directory.findDirectoryEntry d name := by
+  funext s; exact Lemmas.GenMgr2.find_directory_entry_eq d name s
+
+theorem make_dir_in_dir_eq (d : Nat) (name : List Nat) :
+    FunsWrap.Directory_make_dir_in_dir d name = Wrap.Directory.makeDirInDir d name := by
+  funext s; exact Lemmas.GenMgr2.make_dir_in_dir_eq d name s
+
+/-- The two methods whose manager method takes a callback (`Gen/FunsMgr2.lean` has them under another convention: the
+list of the calls): the wrapper passes everything through. -/
 theorem pass_through :
-    (∀ (impl : Nat → List Nat → M DirEntry) d name, FunsWrap.Directory_find_directory_entry impl d name = impl d name) ∧
-    (∀ (impl : Nat → List Nat → M Unit) d name, FunsWrap.Directory_make_dir_in_dir impl d name = impl d name) ∧
     (∀ (F : Type) (impl : Nat → F → M Unit) d func, FunsWrap.Directory_iterate_dir impl d func = impl d func) ∧
     (∀ (B F : Type) (impl : Nat → B → F → M B) d buf func,
       FunsWrap.Directory_iterate_dir_lfn impl d buf func = impl d buf func) :=
-  ⟨fun _ _ _ => rfl, fun _ _ _ => rfl, fun _ _ _ _ => rfl, fun _ _ _ _ _ _ => rfl⟩
+  ⟨fun _ _ _ _ => rfl, fun _ _ _ _ _ _ => rfl⟩
 
 /-! ### `Volume`, `open_volume` -/
 
